@@ -2,6 +2,9 @@ import NLE.Driver.TraceParse
 import NLE.Model.Monitors
 import NLE.Model.Own
 import NLE.Model.Life
+import NLE.Model.HB
+import NLE.Model.Conn
+import NLE.Model.ValAcc
 /-
   `trace-begin` … lines … `trace-end`: parse a harness trace, run the world model and the monitors,
   answer one line:  `T <events> <parse-error-line|0> <store-mismatches> <fails>` followed by tab-separated
@@ -42,6 +45,33 @@ def accLife (evs : List TEv) : Option (Nat × String) :=
       | .error msg => some (k, msg)
   go {} 1 evs
 
+def accHB (evs : List TEv) : Option (Nat × String) :=
+  let rec go (s : HB.State) (k : Nat) : List TEv → Option (Nat × String)
+    | [] => none
+    | e :: es =>
+      match HB.step s e with
+      | .ok s' => go s' (k + 1) es
+      | .error msg => some (k, msg)
+  go {} 1 evs
+
+def accConn (evs : List TEv) : Option (Nat × String) :=
+  let rec go (s : Conn.State) (k : Nat) : List TEv → Option (Nat × String)
+    | [] => none
+    | e :: es =>
+      match Conn.step s e with
+      | .ok s' => go s' (k + 1) es
+      | .error msg => some (k, msg)
+  go {} 1 evs
+
+def accVal (evs : List TEv) : Option (Nat × String) :=
+  let rec go (s : ValAcc.State) (k : Nat) : List TEv → Option (Nat × String)
+    | [] => none
+    | e :: es =>
+      match ValAcc.step s e with
+      | .ok s' => go s' (k + 1) es
+      | .error msg => some (k, msg)
+  go {} 1 evs
+
 def sanitize (s : String) : String :=
   String.ofList (s.toList.map fun c => if c == '\t' || c == '\n' || c == '|' then ' ' else c)
 
@@ -51,7 +81,7 @@ def TraceAcc.finish (a : TraceAcc) : String :=
   let store := m.w.storeMismatch.reverse.map fun s => s!"STORE|store-model|0|{sanitize s}"
   let cov := m.w.cov.map fun (k, n) => s!"COV|{k}|{n}|"
   -- implementation models: does the model accept (= can it produce) this trace?
-  let acc := [("Own", accOwn a.evs.toList), ("Life", accLife a.evs.toList)]
+  let acc := [("Own", accOwn a.evs.toList), ("Life", accLife a.evs.toList), ("HB", accHB a.evs.toList), ("Conn", accConn a.evs.toList), ("Val", accVal a.evs.toList)]
   let accItems := acc.map fun (name, r) =>
     match r with
     | none => s!"ACC|{name}|0|ok"
